@@ -4,7 +4,7 @@
    parameters (not only [0,1]) and ALL affine maps; equality is rational equality of
    both coordinates ([=p=]). *)
 From Coq Require Import QArith.
-From LV Require Import Base.Prelude Model.Bezier Proofs.C10_Bezier.
+From LV Require Import Base.Prelude Model.Bezier Model.LineInter Proofs.C10_Bezier Gen.Functions Proofs.Gen_Geom Proofs.Gen_GeomProps.
 Open Scope Q_scope.
 
 Theorem C10_line_split_l : forall l t u, l_sample (fst (l_split l t)) u =p= l_sample l (t * u).
@@ -105,6 +105,70 @@ Example C10_sample_example :
   q_sample (mkQuad (0,0) (1,2) (2,0)) (1#2) =p= (1, 1).
 Proof. vm_compute. split; reflexivity. Qed.
 
+
+(* ---- the tie to the source by translation: Gen/Functions.v is regenerated on every run from the bodies of
+   LineSegment / QuadraticBezierSegment / CubicBezierSegment::{sample, x, y, derivative, dx, dy, flip, split_range,
+   split, before_split, after_split, to_cubic, to_quadratic, …} in /repo/crates/geom/src (tools/rs2coq.py); the
+   translations ARE the models the theorems above are about, and the split / flip theorems hold of them *)
+Theorem C10_line_is_source : forall s o t t0 t1,
+  src_line_sample s t = l_sample s t /\ src_line_x s t = l_x s t /\ src_line_y s t = l_y s t /\
+  src_line_flip s = l_flip s /\ src_line_split_range s t0 t1 = l_split_range s t0 t1 /\
+  src_line_split s t = l_split s t /\ src_line_before_split s t = l_before_split s t /\
+  src_line_after_split s t = l_after_split s t /\ src_line_to_vector s = l_derivative s /\
+  src_line_intersection_t s o = seg_intersection_t s o.
+Proof. exact src_line_is_model. Qed.
+
+Theorem C10_quad_is_source : forall c t t0 t1,
+  src_quad_sample c t = q_sample c t /\ src_quad_x c t = q_x c t /\ src_quad_y c t = q_y c t /\
+  src_quad_derivative c t = q_derivative c t /\
+  src_quad_dx c t = px (q_derivative c t) /\ src_quad_dy c t = py (q_derivative c t) /\
+  src_quad_flip c = q_flip c /\ src_quad_split_range c t0 t1 = q_split_range c t0 t1 /\
+  src_quad_split c t = q_split c t /\ src_quad_before_split c t = q_before_split c t /\
+  src_quad_after_split c t = q_after_split c t.
+Proof. exact src_quad_is_model. Qed.
+
+Theorem C10_cubic_is_source : forall c t t0 t1,
+  src_cubic_sample c t = c_sample c t /\ src_cubic_x c t = c_x c t /\ src_cubic_y c t = c_y c t /\
+  src_cubic_derivative c t = c_derivative c t /\
+  src_cubic_dx c t = px (c_derivative c t) /\ src_cubic_dy c t = py (c_derivative c t) /\
+  src_cubic_flip c = c_flip c /\ src_cubic_split_range c t0 t1 = c_split_range c t0 t1 /\
+  src_cubic_split c t = c_split c t /\ src_cubic_before_split c t = c_before_split c t /\
+  src_cubic_after_split c t = c_after_split c t.
+Proof. exact src_cubic_is_model. Qed.
+
+Theorem C10_conversions_are_source : forall q c,
+  src_quad_to_cubic q = q_to_cubic q /\ src_cubic_to_quadratic c = c_to_quadratic c.
+Proof. intros q c. split; [exact (src_quad_to_cubic_is_model q)|exact (src_cubic_to_quadratic_is_model c)]. Qed.
+
+Theorem C10_src_quad_split_retraces : forall c t u,
+  src_quad_sample (fst (src_quad_split c t)) u =p= src_quad_sample c (t * u) /\
+  src_quad_sample (snd (src_quad_split c t)) u =p= src_quad_sample c (t + (1 - t) * u) /\
+  src_quad_sample (src_quad_before_split c t) u =p= src_quad_sample c (t * u) /\
+  src_quad_sample (src_quad_after_split c t) u =p= src_quad_sample c (t + (1 - t) * u).
+Proof. exact src_quad_split_retraces. Qed.
+
+Theorem C10_src_quad_split_range_flip_retrace : forall c a b u,
+  src_quad_sample (src_quad_split_range c a b) u =p= src_quad_sample c (a + (b - a) * u) /\
+  src_quad_sample (src_quad_flip c) u =p= src_quad_sample c (1 - u).
+Proof. exact src_quad_split_range_flip_retrace. Qed.
+
+Theorem C10_src_cubic_split_retraces : forall c t u,
+  src_cubic_sample (fst (src_cubic_split c t)) u =p= src_cubic_sample c (t * u) /\
+  src_cubic_sample (snd (src_cubic_split c t)) u =p= src_cubic_sample c (t + (1 - t) * u) /\
+  src_cubic_sample (src_cubic_before_split c t) u =p= src_cubic_sample c (t * u) /\
+  src_cubic_sample (src_cubic_after_split c t) u =p= src_cubic_sample c (t + (1 - t) * u).
+Proof. exact src_cubic_split_retraces. Qed.
+
+Theorem C10_src_cubic_split_range_flip_retrace : forall c a b u,
+  src_cubic_sample (src_cubic_split_range c a b) u =p= src_cubic_sample c (a + (b - a) * u) /\
+  src_cubic_sample (src_cubic_flip c) u =p= src_cubic_sample c (1 - u).
+Proof. exact src_cubic_split_range_flip_retrace. Qed.
+
+Theorem C10_src_coordinates_are_samples : forall q c t,
+  src_quad_sample q t =p= (src_quad_x q t, src_quad_y q t) /\
+  src_cubic_sample c t =p= (src_cubic_x c t, src_cubic_y c t).
+Proof. exact src_coordinates_are_samples. Qed.
+
 Print Assumptions C10_line_split_l.
 Print Assumptions C10_line_split_r.
 Print Assumptions C10_line_before_split.
@@ -136,3 +200,12 @@ Print Assumptions C10_cubic_xy.
 Print Assumptions C10_cubic_derivative.
 Print Assumptions C10_cubic_endpoints.
 Print Assumptions C10_cubic_to_quadratic_of_elevated.
+Print Assumptions C10_line_is_source.
+Print Assumptions C10_quad_is_source.
+Print Assumptions C10_cubic_is_source.
+Print Assumptions C10_conversions_are_source.
+Print Assumptions C10_src_quad_split_retraces.
+Print Assumptions C10_src_quad_split_range_flip_retrace.
+Print Assumptions C10_src_cubic_split_retraces.
+Print Assumptions C10_src_cubic_split_range_flip_retrace.
+Print Assumptions C10_src_coordinates_are_samples.
